@@ -196,3 +196,28 @@ Definition parse_case_ok (k : list string * ex) : bool :=
   | Some e => ex_eqb e (snd k)
   | None => false
   end.
+
+(* ---- underef's quoted suggestion (checkers/underef_checker.go:81-101): for a selector or index expression on a parenthesised dereference of X it prints X — kept in
+   parentheses only when X is itself a dereference — followed by the selector or index, as text ---- *)
+Definition underef_operand (x : ex) : list tok :=
+  match x with
+  | EUn op _ => if String.eqb op "*" then pp (EParen x) else pp x
+  | _ => pp x
+  end.
+Definition underef_sel_text (x : ex) (f : string) : list tok := underef_operand x ++ [T "."; T f].
+Definition underef_idx_text (x i : ex) : list tok := underef_operand x ++ T "[" :: pp i ++ [T "]"].
+(* what the suggestion is meant to denote *)
+Definition underef_sel_tree (x : ex) (f : string) : ex :=
+  match x with
+  | EUn op _ => if String.eqb op "*" then ESel (EParen x) f else ESel x f
+  | _ => ESel x f
+  end.
+(* a correspondence case: the dereferenced operand X of a reported selector expression, the field, and the tokens of the suggestion the checker printed *)
+Definition underef_case_ok (k : ex * string * list string) : bool :=
+  let '(x, f, toks) := k in
+  (fix eqs (a : list tok) (b : list string) : bool :=
+     match a, b with
+     | [], [] => true
+     | T s :: a', s' :: b' => String.eqb s s' && eqs a' b'
+     | _, _ => false
+     end) (underef_sel_text x f) toks.
